@@ -25,13 +25,19 @@ def loaded_from(lines):
     """the AssemblyFile object whose load_line_objects produced this list (ghost)"""
 
 
+@spec(uninterpreted=True, sig=['list[LineObject]', 'ConditionStack?'], heap_reads=[])
+def loaded_under(lines):
+    """the condition stack (selected branches, mute state) under which this list of lines was loaded (ghost)"""
+
+
 LOAD_PARAMS = {'include_paths': 'set[str]', 'assembly_files_used': 'set[str]', 'condition_stack': 'ConditionStack?'}
 contract(AF + '.load_line_objects', name='abs:AssemblyFile.load_line_objects', props=['C17'], assumed=True,
          reason='reads the file (I/O outside the subset); its per-line body is verified as the block `line`; here only: '
                 'the list is tagged with the file object that produced it and the file is registered as used',
          params=LOAD_PARAMS, returns='list[LineObject]',
          may_raise={'SystemExit': 'True'},
-         ensures=['fresh(result)', 'loaded_from(result) is self', 'self._filename in assembly_files_used',
+         ensures=['fresh(result)', 'loaded_from(result) is self', 'loaded_under(result) is condition_stack',
+                  'self._filename in assembly_files_used',
                   'implies(condition_stack is not None, cs_wf(condition_stack))'],
          requires=['implies(condition_stack is not None, cs_wf(condition_stack))'],
          modifies=['assembly_files_used[*]', 'condition_stack._stack[*]', 'condition_stack._selected[*]',
@@ -40,7 +46,7 @@ contract(AF + '.load_line_objects', name='abs:AssemblyFile.load_line_objects', p
          allocates=True, no_frame_check=True)
 
 INC_PARAMS = dict(LOAD_PARAMS, line_str='str')
-contract(AF + '._handle_include_file', props=['C17', 'C06'], params=INC_PARAMS, returns='list[LineObject]',
+contract(AF + '._handle_include_file', props=['C17', 'C06', 'C03', 'C08'], params=INC_PARAMS, returns='list[LineObject]',
          requires=['allocated(self._label_scope)', 'implies(condition_stack is not None, cs_wf(condition_stack))'],
          # (AttributeError: the regular expression is opaque here, so group(1) of a match is not known to be present)
          may_raise={'SystemExit': 'True', 'AttributeError': 'True'},
@@ -57,6 +63,9 @@ contract(AF + '._handle_include_file', props=['C17', 'C06'], params=INC_PARAMS, 
              'value_of(loaded_from(result))._filename in assembly_files_used',
              # and it is the unique match of the name in the search directories
              'path_exists(value_of(loaded_from(result))._filename)',
+             # the included lines are read under the includer's own condition stack: its selected branches and its mute
+             # state continue into the file and whatever the file changes continues after it (text pasted in place)
+             'loaded_under(result) is condition_stack',
              'implies(condition_stack is not None, cs_wf(condition_stack))'],
          modifies=['assembly_files_used[*]', 'condition_stack._stack[*]', 'condition_stack._selected[*]',
                    'condition_stack._taken[*]', 'condition_stack._mute_counter', 'preprocessor._symbols[*]',
